@@ -1861,19 +1861,23 @@ impl<'a, R: FileManager> FrontendCtx<'a, R> {
         }
     }
 
+    /// `written_in`: the file the name is written in (for import("./b").A.B that is the importing
+    /// file, while the name is looked up in b.ts): its spans are positions in that file
     fn get_adressed_qualified_type_from_entity_name(
         &mut self,
         q: &TsEntityName,
         file: BffFileName,
+        written_in: &BffFileName,
     ) -> Res<AddressedQualifiedType> {
         match q {
             TsEntityName::TsQualifiedName(ts_qualified_name) => {
                 let left_part = self.get_adressed_qualified_type_from_entity_name(
                     &ts_qualified_name.left,
                     file.clone(),
+                    written_in,
                 )?;
                 let anchor = Anchor {
-                    f: file.clone(),
+                    f: written_in.clone(),
                     s: ts_qualified_name.span(),
                 };
                 match left_part {
@@ -1896,7 +1900,7 @@ impl<'a, R: FileManager> FrontendCtx<'a, R> {
                     Visibility::Local,
                 );
                 let anchor = Anchor {
-                    f: file.clone(),
+                    f: written_in.clone(),
                     s: ident.span,
                 };
                 let type_addressed = self.get_addressed_qualified_type(&addr, &anchor)?;
@@ -1981,6 +1985,7 @@ impl<'a, R: FileManager> FrontendCtx<'a, R> {
                 let qualified_type = self.get_adressed_qualified_type_from_entity_name(
                     &ts_qualified_name.left,
                     file.clone(),
+                    &anchor.f,
                 )?;
 
                 let new_addr = match qualified_type {
@@ -2748,9 +2753,10 @@ impl<'a, R: FileManager> FrontendCtx<'a, R> {
         &mut self,
         q: &TsEntityName,
         file: BffFileName,
+        written_in: &BffFileName,
     ) -> Res<AddressedQualifiedValue> {
         let anchor = Anchor {
-            f: file.clone(),
+            f: written_in.clone(),
             s: q.span(),
         };
         match q {
@@ -2758,6 +2764,7 @@ impl<'a, R: FileManager> FrontendCtx<'a, R> {
                 let left_part = self.get_addressed_qualified_value_from_entity_name(
                     &ts_qualified_name.left,
                     file.clone(),
+                    written_in,
                 )?;
                 if let AddressedQualifiedValue::StarOfFile(other_file) = left_part {
                     let new_addr = ModuleItemAddress {
@@ -2854,6 +2861,7 @@ impl<'a, R: FileManager> FrontendCtx<'a, R> {
         let left_value = self.get_addressed_qualified_value_from_entity_name(
             &ts_qualified_name.left,
             file.clone(),
+            &anchor.f,
         )?;
 
         self.member_access_qualified_value(&left_value, &ts_qualified_name.right.sym, anchor)
